@@ -15,5 +15,6 @@ func controlsC20() []Control {
 		{Name: "two player fields share one JSON name", Expect: "R2", Mutate: replaceInFile("/table.go", "`json:\"is_in\"`", "`json:\"seat\"`")},
 		{Name: "adapter copies through a shallow clone helper", Expect: "R2", Mutate: replaceIn("(*tableEngineAdapter).UpdateTableState", "data, err := tableInfo.GetJSON()", "shallow := func(src *pokertable.Table) (*pokertable.Table, error) { c := *src; return &c, nil }\n\tif own, err := shallow(tableInfo); err == nil {\n\t\ttea.table = own\n\t\treturn tea.actor.UpdateTableState(own)\n\t}\n\tdata, err := tableInfo.GetJSON()", 0)},
 		{Name: "a listener that registers late is shown the retained table", Expect: "R1", Mutate: replaceIn("(*observerRunner).OnTableStateUpdated", "obr.onTableStateUpdated = fn", "obr.onTableStateUpdated = fn\n\tif obr.tableInfo != nil {\n\t\tfn(obr.tableInfo)\n\t}", 0)},
+		{Name: "GetJSON answers an empty table's text for an unset id", Expect: "R2", Mutate: replaceIn("(Table).GetJSON", "\tencoded, err := json.Marshal(t)\n", "\tif t.ID == \"\" {\n\t\treturn \"{}\", nil\n\t}\n\tencoded, err := json.Marshal(t)\n", 0)},
 	}
 }
